@@ -336,7 +336,9 @@ Plan generate_plan(const std::string& prop, unsigned long long vseed, unsigned l
                 else if (k == 8) { o.kind = OP_EQUALS; o.a = r.range(0, 1); o.b = r.chance(500) ? s0 : r.range(0, 1); }
                 else if (k == 9) { o.kind = OP_MASKREQ; o.a = r.range(0, 1); o.entry = r.range(0, 1); }
                 else if (k == 10) { o.kind = OP_COMPOSE; o.a = 0; o.entry = r.range(0, 1); o.opt = r.range(0, 3); o.cap = r.chance(300) ? 3 : CAP_AMPLE; }
-                else { o.kind = OP_DISSECT; o.a = q; o.text = gen::query_string(r, 3); o.entry = r.range(0, 2); o.opt = r.range(0, 7); }
+                else if (r.chance(400)) { o.kind = OP_DISSECT; o.a = q; o.text = gen::query_string(r, 3); o.entry = r.range(0, 2); o.opt = r.range(0, 7); }
+                else if (r.chance(500)) { o.kind = OP_ESCAPE; Op tmp; gen::query_items(r, tmp, 1, 10); o.text = tmp.keys[0] + (r.chance(300) ? "%41%0d%0A+" : ""); o.entry = r.range(0, 3); o.opt = r.range(0, 63); if ((o.opt & 3) == 3) o.text = r.pick(std::vector<std::string>{"1.2.3.4", "255.255.255.255", "256.1.1.1", "01.2.3.4", "1.2.3", "10.0.0.12", "1.2.3.4.5", "a.b.c.d", ""}); }
+                else { o.kind = OP_FILENAME; o.opt = r.range(0, 1); o.text = r.pick(std::vector<std::string>{"/bin/bash", "./configure", "C:\\Documents and Settings\\x", "\\\\Server01\\Letter.txt", "abc def", "E:/x y/%41", "/a/b c/\xe9", ""}) + (r.chance(300) ? gen::uri_text(r, tc) : ""); }
                 tops[(size_t)t].push_back(o);
             }
         }
